@@ -183,7 +183,7 @@ to the length of the shortest input list."
   (foldl multiply 1 numbers))
 
 (defun - (& numbers)
-  "If called with 0 arguments: return 1.
+  "If called with 0 arguments: return 0.
 If called with 1 argument: negate it.
 Otherwise substract all but the first argument from the first one."
   (if numbers
@@ -197,7 +197,7 @@ Otherwise substract all but the first argument from the first one."
 (defun / (& numbers)
   "If called with 0 arguments: return 1.
 If called with 1 argument: return 1 divided by that arguments.
-Otherwise substract all but the first argument from the first one."
+Otherwise divide the first argument by all the others."
   (if numbers
       (let (first (car numbers)
             rest  (cdr numbers))
